@@ -110,10 +110,17 @@ func vlBig(s string) *big.Int {
 	return b
 }
 
+var vlDataDir string
+var vlChainCount int
+
 func vlMakeChain() *ChainService {
 	serverCtx := config.NewServerContext("", "")
 	testCfg = serverCtx.GetDefaultConfig().(*config.Config)
 	testCfg.DbType = "memorydb"
+	// memorydb loads <dir>/database when it exists and writes it on Close: one empty directory per chain
+	vlChainCount++
+	testCfg.DataDir = fmt.Sprintf("%s/chain%d", vlDataDir, vlChainCount)
+	os.MkdirAll(testCfg.DataDir, 0o755)
 	testCfg.UseTestnet = true
 	dfltUseMempool = false
 	cs := NewChainService(testCfg)
@@ -365,6 +372,9 @@ type vlObs struct {
 	AddErr     string `json:"addErr,omitempty"`
 	NRcpt      int    `json:"nrcpt"`
 	Included   []int  `json:"included,omitempty"`
+	NamePrice  string `json:"namePrice,omitempty"`
+	StakeMin   string `json:"stakeMin,omitempty"`
+	GasPrice   string `json:"gasPrice,omitempty"`
 }
 
 func vlSum(cs *ChainService, root []byte) *big.Int {
@@ -381,11 +391,15 @@ func vlSum(cs *ChainService, root []byte) *big.Int {
 }
 
 func (e *vlEnv) installVM(scripts map[string]*vlVM) {
-	contract.StubCheckFeeDelegation = func(contractAddress, payload, sender []byte) error { return nil }
+	contract.StubCheckFeeDelegation = func(contractAddress, payload, sender []byte, cs *statedb.ContractState) error { return nil }
 	contract.StubVMX = func(kind string, cs *statedb.ContractState, payload, id []byte, v *contract.VerifVmCtx) (string, []*types.Event, string, *big.Int, error) {
 		sc := scripts[string(v.TxHash)]
+		// the real VM fails with "not found contract" when the callee has no code
+		if kind == "call" && !v.Receiver.IsContract() {
+			return "", nil, "", new(big.Int), errors.New("not found contract")
+		}
 		if sc == nil {
-			return "", nil, "", new(big.Int), errors.New("no code")
+			return "", nil, "", new(big.Int), errors.New("no script")
 		}
 		cfee := vlBig(sc.Fee)
 		switch sc.Res {
@@ -395,12 +409,40 @@ func (e *vlEnv) installVM(scripts map[string]*vlVM) {
 			return "", nil, "", cfee, contract.VerifSystemErr(errors.New("scripted system error"))
 		}
 		// all-or-nothing effects: the contract must be able to pay every transfer
-		total := new(big.Int)
-		for _, tr := range sc.Transfers {
-			total.Add(total, vlBig(tr[1]))
-		}
-		if v.Receiver.Balance().Cmp(total) < 0 {
-			return "", nil, "", new(big.Int), errors.New("scripted: contract balance too low")
+		if cfee.Sign() >= 0 {
+			total := new(big.Int)
+			toSender := new(big.Int)
+			for _, tr := range sc.Transfers {
+				var to int
+				fmt.Sscan(tr[0], &to)
+				amt := vlBig(tr[1])
+				if amt.Sign() < 0 {
+					return "", nil, "", new(big.Int), errors.New("scripted: negative amount")
+				}
+				taid := types.ToAccountID(e.addr(to))
+				if taid == v.Receiver.AccountID() {
+					continue
+				}
+				total.Add(total, amt)
+				if taid == v.Sender.AccountID() {
+					toSender.Add(toSender, amt)
+				}
+			}
+			if v.Receiver.Balance().Cmp(total) < 0 {
+				return "", nil, "", new(big.Int), errors.New("scripted: contract balance too low")
+			}
+			// the payer must be able to pay base fee + execution fee after the effects (gas bound)
+			base := fee.TxBaseFee(v.Bi.ForkVersion, v.Bs.GasPrice, len(payload))
+			need := new(big.Int).Add(base, cfee)
+			var payer *big.Int
+			if v.FeeDelegation {
+				payer = new(big.Int).Sub(v.Receiver.Balance(), total)
+			} else {
+				payer = new(big.Int).Add(v.Sender.Balance(), toSender)
+			}
+			if payer.Cmp(need) < 0 {
+				return "", nil, "", new(big.Int), errors.New("scripted: out of gas")
+			}
 		}
 		for _, tr := range sc.Transfers {
 			var to int
@@ -459,6 +501,9 @@ func (e *vlEnv) runCase(w *bufio.Writer) {
 	best.BlockHash()
 	root := append([]byte{}, cs.sdb.GetRoot()...)
 	gp := vlBig(c.GasPrice)
+	if c.Mode == "chain" {
+		gp = system.GetGasPrice() // the validator uses the system parameter
+	}
 	for _, id := range c.Ids {
 		e.addr(id)
 	}
@@ -491,7 +536,8 @@ func (e *vlEnv) runCase(w *bufio.Writer) {
 			}
 		}
 	}
-	emit(&vlObs{Kind: "init", D: e.dump(cs.sdb.OpenNewStateDB(root)), SumBefore: vlSum(cs, root).String()})
+	emit(&vlObs{Kind: "init", D: e.dump(cs.sdb.OpenNewStateDB(root)), SumBefore: vlSum(cs, root).String(),
+		GasPrice: gp.String(), NamePrice: system.GetNamePrice().String(), StakeMin: system.GetStakingMinimum().String()})
 
 	scripts := map[string]*vlVM{}
 	e.installVM(scripts)
@@ -533,7 +579,11 @@ func (e *vlEnv) runCase(w *bufio.Writer) {
 			aborted := false
 			for _, i := range sel {
 				t := &blk.Txs[i]
-				contract.StubCheckFeeDelegation = func(contractAddress, payload, sender []byte) error {
+				contract.StubCheckFeeDelegation = func(contractAddress, payload, sender []byte, ccs *statedb.ContractState) error {
+					// the real CheckFeeDelegation fails with "not found contract" on an account without code
+					if len(ccs.GetCodeHash()) == 0 {
+						return errors.New("not found contract")
+					}
 					if t.FdDeny {
 						return types.ErrNotAllowedFeeDelegation
 					}
@@ -675,6 +725,7 @@ func TestVerifLedgerEngine(t *testing.T) {
 	if err != nil {
 		t.Fatal(err)
 	}
+	vlDataDir = t.TempDir()
 	defer in.Close()
 	out, err := os.Create(os.Getenv("VERIF_OUT"))
 	if err != nil {
